@@ -1421,3 +1421,552 @@ Proof.
   intros L. assert (N : y <> Dag.dsize s) by lia. unfold dshallow_copy, dsame_at; cbn.
   rewrite !upd_neq by exact N. auto.
 Qed.
+
+(* ======================================================================================== *)
+(* REFINEMENT: through the abstraction of Heap/Abs.v the heap skeletons compute the trees of the
+   rose-tree algorithms (Algo/Helper.v, Algo/Export.v).  The other engines' files are used
+   qualified and read-only. *)
+From BT Require Base.Rose Heap.ForestWF Heap.ForestOps Heap.ForestStep Heap.ForestRefl Heap.Abs
+     Algo.Helper Algo.HelperProofs Algo.Export.
+(* ---------------------------------------------------------------------------------------- *)
+(* refinement: the heap skeletons compute, through the abstraction of Heap/Abs.v, the trees of the
+   rose-tree algorithms *)
+
+Fixpoint relabel (g : id -> id) (t : Rose.tree) : Rose.tree :=
+  match t with Rose.T tg n a ks => Rose.T (option_map g tg) n a (map (relabel g) ks) end.
+
+(* key and content of an attribute (the address is identity, not value) *)
+Definition akc (a : attr) : nat * nat := let '(k, c, _) := a in (k, c).
+
+(* Abs.tree_of with the public attributes, decoded by an arbitrary `dec` *)
+Fixpoint etree_of (dec : list (nat * nat) -> Rose.attrs) (h : eheap) (fuel : nat) (x : id) : Rose.tree :=
+  match fuel with
+  | 0 => Rose.T (Some x) (name (fr h) x) (dec (map akc (att h x))) []
+  | S f => Rose.T (Some x) (name (fr h) x) (dec (map akc (att h x))) (map (etree_of dec h f) (kids (fr h) x))
+  end.
+Definition esubtree dec (h : eheap) (x : id) : Rose.tree := etree_of dec h (S (size (fr h))) x.
+
+Fixpoint deco (dec : list (nat * nat) -> Rose.attrs) (h : eheap) (t : Rose.tree) : Rose.tree :=
+  match t with
+  | Rose.T (Some y) n _ ks => Rose.T (Some y) n (dec (map akc (att h y))) (map (deco dec h) ks)
+  | Rose.T None n a ks => Rose.T None n a (map (deco dec h) ks)
+  end.
+
+Lemma etree_deco dec h : forall f x, etree_of dec h f x = deco dec h (Abs.tree_of (fr h) f x).
+Proof.
+  induction f as [|f IH]; intros x; cbn; [reflexivity|].
+  f_equal. rewrite map_map. apply map_ext. exact IH.
+Qed.
+
+Lemma etree_nil h f x : etree_of (fun _ => []) h f x = Abs.tree_of (fr h) f x.
+Proof. revert x; induction f as [|f IH]; intros x; cbn; [reflexivity|]. f_equal. apply map_ext. exact IH. Qed.
+
+Lemma etree_any_fuel dec h x f :
+  ForestWF.WF (fr h) -> size (fr h) <= f -> etree_of dec h (S f) x = esubtree dec h x.
+Proof.
+  intros W L. unfold esubtree. rewrite !etree_deco. f_equal.
+  rewrite (Abs.tree_of_any_fuel (fr h) x f W L). reflexivity.
+Qed.
+
+(* --- closure of the component under WF --- *)
+Lemma comp_kids_closed_WF s r x k :
+  ForestWF.WF s -> In x (comp s r) -> In k (kids s x) -> In k (comp s r).
+Proof. intros W. apply comp_kids_closed. now apply ForestRefl.WF_wf_b. Qed.
+Lemma comp_par_closed_WF s r x p :
+  ForestWF.WF s -> In x (comp s r) -> par s x = Some p -> In p (comp s r).
+Proof. intros W. apply comp_par_closed. now apply ForestRefl.WF_wf_b. Qed.
+
+Lemma att_copy h r x : In x (comp (fr h) r) ->
+  map akc (att (deep_copy h r) (phi (fr h) r x)) = map akc (att h x).
+Proof.
+  intros H. unfold deep_copy; cbn [att].
+  assert (L : Nat.ltb (phi (fr h) r x) (size (fr h)) = false) by (apply Nat.ltb_ge; apply phi_ge).
+  rewrite L.
+  assert (N : nth_error (comp (fr h) r) (phi (fr h) r x - size (fr h)) = Some x).
+  { unfold phi. replace (size (fr h) + index_of x (comp (fr h) r) - size (fr h))
+      with (index_of x (comp (fr h) r)) by lia. now apply nth_error_index_of. }
+  rewrite N, map_map. apply map_ext. intros [[k c] a]. reflexivity.
+Qed.
+
+Lemma etree_copy dec h r : ForestWF.WF (fr h) ->
+  forall f x, In x (comp (fr h) r) ->
+    etree_of dec (deep_copy h r) f (phi (fr h) r x) = relabel (phi (fr h) r) (etree_of dec h f x).
+Proof.
+  intros W f; induction f as [|f IH]; intros x Hx;
+    destruct (dc_iso (fr h) r x Hx) as (_ & Hk & Hn & _); cbn [deep_copy fr] in *.
+  - cbn [etree_of relabel]. change (fr (deep_copy h r)) with (deep_copy_f (fr h) r).
+    rewrite Hn, (att_copy h r x Hx). reflexivity.
+  - cbn [etree_of relabel]. change (fr (deep_copy h r)) with (deep_copy_f (fr h) r).
+    rewrite Hn, Hk, (att_copy h r x Hx). cbn [option_map].
+    f_equal. rewrite !map_map. apply map_ext_in. intros k Hin. apply IH.
+    eapply comp_kids_closed_WF; eauto.
+Qed.
+
+(* (1) node.copy(): the copy of x abstracts to the source tree of x with fresh tags *)
+Theorem copy_refines dec h r x :
+  ForestWF.WF (fr h) -> In x (comp (fr h) r) ->
+  esubtree dec (deep_copy h r) (phi (fr h) r x) = relabel (phi (fr h) r) (esubtree dec h x).
+Proof.
+  intros W Hx. unfold esubtree at 1. rewrite (etree_copy dec h r W _ x Hx). f_equal.
+  apply etree_any_fuel; [exact W|]. cbn. lia.
+Qed.
+
+Lemma copy_tree_relabel g t : Helper.copy_tree (relabel g t) = Helper.copy_tree t.
+Proof.
+  induction t as [tg n a ks IH] using Rose.tree_ind'. cbn. f_equal. rewrite map_map.
+  apply map_ext_in. intros k Hk. rewrite Forall_forall in IH. now apply IH.
+Qed.
+
+Lemma comp_nodup s r : NoDup (comp s r).
+Proof. unfold comp. apply NoDup_filter. apply seq_NoDup. Qed.
+
+Lemma index_of_nth_error l : NoDup l -> forall i y, nth_error l i = Some y -> index_of y l = i.
+Proof.
+  induction l as [|z t IH]; intros Hnd i y H; [destruct i; discriminate|].
+  inversion Hnd as [|? ? Hz Ht]; subst. destruct i as [|i]; cbn in *.
+  - injection H as ->. now rewrite Nat.eqb_refl.
+  - destruct (Nat.eqb y z) eqn:E.
+    + apply Nat.eqb_eq in E. subst. exfalso. apply Hz. eapply nth_error_In; eauto.
+    + f_equal. now apply IH.
+Qed.
+
+Lemma src_phi s r x : In x (comp s r) -> nth_error (comp s r) (phi s r x - size s) = Some x.
+Proof.
+  intros H. unfold phi. replace (size s + index_of x (comp s r) - size s) with (index_of x (comp s r)) by lia.
+  now apply nth_error_index_of.
+Qed.
+
+(* an allocated id of the copy is the copy of a member of the component *)
+Lemma src_inv s r k y : size s <= k -> nth_error (comp s r) (k - size s) = Some y ->
+  In y (comp s r) /\ k = phi s r y.
+Proof.
+  intros L H. split; [eapply nth_error_In; eauto|].
+  unfold phi. rewrite (index_of_nth_error _ (comp_nodup s r) _ _ H). lia.
+Qed.
+
+Lemma dc_high s r k : size s <= k ->
+  (exists y, In y (comp s r) /\ k = phi s r y)
+  \/ (par (deep_copy_f s r) k = None /\ kids (deep_copy_f s r) k = []).
+Proof.
+  intros L. destruct (nth_error (comp s r) (k - size s)) as [y|] eqn:E.
+  - left. exists y. now apply src_inv.
+  - right. assert (Lt : Nat.ltb k (size s) = false) by (now apply Nat.ltb_ge).
+    unfold deep_copy_f; cbn [par kids]. rewrite Lt, E. auto.
+Qed.
+
+Lemma NoDup_map_inj_in {A B} (f : A -> B) l :
+  NoDup l -> (forall a b, In a l -> In b l -> f a = f b -> a = b) -> NoDup (map f l).
+Proof.
+  induction l as [|x t IH]; intros Hnd Hinj; cbn; [constructor|].
+  inversion Hnd as [|? ? Hx Ht]; subst. constructor.
+  - intros Hin. apply in_map_iff in Hin. destruct Hin as (y & Hy & Hyt).
+    apply Hx. rewrite (Hinj x y); auto; [now left | now right].
+  - apply IH; auto. intros a b Ha Hb. apply Hinj; now right.
+Qed.
+
+Theorem copy_WF s r : ForestWF.WF s -> ForestWF.WF (deep_copy_f s r).
+Proof.
+  intros W. set (s' := deep_copy_f s r). set (n := size s).
+  assert (Below : forall x, x < n -> par s' x = par s x /\ kids s' x = kids s x).
+  { intros x L. destruct (dc_below s r x L) as (a & b & _). auto. }
+  assert (Iso : forall y, In y (comp s r) ->
+            par s' (phi s r y) = option_map (phi s r) (par s y) /\ kids s' (phi s r y) = map (phi s r) (kids s y)).
+  { intros y Hy. destruct (dc_iso s r y Hy) as (a & b & _). auto. }
+  assert (Bnd : forall c p, par s c = Some p -> c < n /\ p < n) by (apply (ForestWF.wf_bound s W)).
+  assert (Lnk : forall p c, In c (kids s p) <-> par s c = Some p) by (apply (ForestWF.wf_link s W)).
+  assert (KidLt : forall p c, In c (kids s p) -> c < n) by (intros p c H; apply Lnk in H; apply (Bnd c p H)).
+  split.
+  - (* link *)
+    intros p c. destruct (Nat.lt_ge_cases p n) as [Lp|Gp].
+    + destruct (Below p Lp) as [_ Kp]. rewrite Kp. split.
+      * intros Hc. destruct (Below c (KidLt p c Hc)) as [Pc _]. rewrite Pc. now apply Lnk.
+      * intros Hp. destruct (Nat.lt_ge_cases c n) as [Lc|Gc].
+        -- destruct (Below c Lc) as [Pc _]. rewrite Pc in Hp. now apply Lnk.
+        -- destruct (dc_links_fresh s r c Gc) as [Pf _]. specialize (Pf p Hp). unfold n in *. lia.
+    + split.
+      * intros Hc. destruct (dc_high s r p Gp) as [(x & Hx & ->)|[_ K0]]; [|fold s' in K0; rewrite K0 in Hc; destruct Hc].
+        destruct (Iso x Hx) as [_ Kx]. rewrite Kx in Hc. apply in_map_iff in Hc. destruct Hc as (y & <- & Hy).
+        assert (Hyc : In y (comp s r)) by (eapply comp_kids_closed_WF; eauto).
+        destruct (Iso y Hyc) as [Py _]. rewrite Py. apply Lnk in Hy. rewrite Hy. reflexivity.
+      * intros Hp. destruct (Nat.lt_ge_cases c n) as [Lc|Gc].
+        -- destruct (Below c Lc) as [Pc _]. rewrite Pc in Hp. destruct (Bnd c p Hp). unfold n in *. lia.
+        -- destruct (dc_high s r c Gc) as [(y & Hy & ->)|[P0 _]]; [|fold s' in P0; congruence].
+           destruct (Iso y Hy) as [Py _]. rewrite Py in Hp.
+           destruct (par s y) as [x'|] eqn:Hpy; [|discriminate]. cbn in Hp. injection Hp as <-.
+           assert (Hx' : In x' (comp s r)) by (eapply comp_par_closed_WF; eauto).
+           destruct (Iso x' Hx') as [_ Kx']. rewrite Kx'. apply in_map. now apply Lnk.
+  - (* nodup *)
+    intros p. destruct (Nat.lt_ge_cases p n) as [Lp|Gp].
+    + destruct (Below p Lp) as [_ Kp]. rewrite Kp. apply (ForestWF.wf_nodup s W).
+    + destruct (dc_high s r p Gp) as [(x & Hx & ->)|[_ K0]]; [|fold s' in K0; rewrite K0; constructor].
+      destruct (Iso x Hx) as [_ Kx]. rewrite Kx. apply NoDup_map_inj_in; [apply (ForestWF.wf_nodup s W)|].
+      intros a b Ha Hb E. eapply phi_inj; [|exact E]. eapply comp_kids_closed_WF; eauto.
+  - (* bound *)
+    intros c p Hp. destruct (Nat.lt_ge_cases c n) as [Lc|Gc].
+    + destruct (Below c Lc) as [Pc _]. rewrite Pc in Hp. destruct (Bnd c p Hp). subst s'; cbn. fold n. lia.
+    + destruct (dc_high s r c Gc) as [(y & Hy & ->)|[P0 _]]; [|fold s' in P0; congruence].
+      destruct (Iso y Hy) as [Py _]. rewrite Py in Hp.
+      destruct (par s y) as [x'|] eqn:Hpy; [|discriminate]. cbn in Hp. injection Hp as <-.
+      assert (Hx' : In x' (comp s r)) by (eapply comp_par_closed_WF; eauto).
+      split; apply phi_lt; assumption.
+  - (* acyclic *)
+    destruct (ForestWF.wf_acyc s W) as [rk Hrk].
+    exists (fun k => if Nat.ltb k n then rk k else
+                     match nth_error (comp s r) (k - n) with Some y => rk y | None => 0 end).
+    intros c p Hp. destruct (Nat.lt_ge_cases c n) as [Lc|Gc].
+    + destruct (Below c Lc) as [Pc _]. rewrite Pc in Hp. destruct (Bnd c p Hp) as [_ Lp].
+      apply Nat.ltb_lt in Lc, Lp. rewrite Lc, Lp. now apply Hrk.
+    + destruct (dc_high s r c Gc) as [(y & Hy & ->)|[P0 _]]; [|fold s' in P0; congruence].
+      destruct (Iso y Hy) as [Py _]. rewrite Py in Hp.
+      destruct (par s y) as [x'|] eqn:Hpy; [|discriminate]. cbn in Hp. injection Hp as <-.
+      assert (Hx' : In x' (comp s r)) by (eapply comp_par_closed_WF; eauto).
+      assert (L1 : Nat.ltb (phi s r x') n = false) by (apply Nat.ltb_ge; apply phi_ge).
+      assert (L2 : Nat.ltb (phi s r y) n = false) by (apply Nat.ltb_ge; apply phi_ge).
+      rewrite L1, L2. unfold n. rewrite (src_phi s r x' Hx'), (src_phi s r y Hy). now apply Hrk.
+Qed.
+
+(* the tree below x depends only on the entries of the nodes in it *)
+Lemma tags_child s f x k y :
+  In k (kids s x) -> In (Some y) (Abs.tags (Abs.tree_of s f k)) -> In (Some y) (Abs.tags (Abs.tree_of s (S f) x)).
+Proof.
+  intros Hk Hy. unfold Abs.tags in *. cbn [Abs.tree_of Rose.pre map]. right.
+  apply in_map_iff in Hy. destruct Hy as (t & Et & Ht). apply in_map_iff. exists t. split; [exact Et|].
+  apply in_flat_map. exists (Abs.tree_of s f k). split; [now apply in_map | exact Ht].
+Qed.
+
+Lemma etree_ext dec hA hB : forall f x,
+  (forall y, In (Some y) (Abs.tags (Abs.tree_of (fr hA) f x)) ->
+     kids (fr hB) y = kids (fr hA) y /\ name (fr hB) y = name (fr hA) y /\ att hB y = att hA y) ->
+  etree_of dec hB f x = etree_of dec hA f x.
+Proof.
+  induction f as [|f IH]; intros x H.
+  - destruct (H x) as (_ & n & a); [cbn; now left|]. cbn. now rewrite n, a.
+  - destruct (H x) as (k & n & a); [cbn; now left|]. cbn. rewrite k, n, a. f_equal.
+    apply map_ext_in. intros c Hc. apply IH. intros y Hy. apply H. eapply tags_child; eauto.
+Qed.
+
+Lemma run_size cfg ops s : size (run cfg s ops) = size s.
+Proof.
+  assert (C : closed (fun _ => true) s) by (intros x _; split; auto).
+  assert (O : forallb (op_in (fun _ => true)) ops = true).
+  { apply forallb_forall. intros o _. destruct o as [c [i| |] ft|p cont args ft|p|p c ft|p cs fts|p c ft|c p ft|p nm ft|p keys r|n v];
+      cbn; auto; try (apply forallb_forall; intros a _; now destruct a); apply forallb_forall; auto. }
+  destruct (run_ok _ cfg ops s C O) as [[E _] _]. exact E.
+Qed.
+
+(* detaching t does not change the tree below t *)
+Lemma detach_subtree dec cfg h t :
+  ForestWF.WF (fr h) ->
+  esubtree dec (with_fr h (run cfg (fr h) (match par (fr h) t with None => [] | Some _ => [detach t] end))) t
+  = esubtree dec h t.
+Proof.
+  intros W. destruct (par (fr h) t) as [q|] eqn:Hq; [|destruct h; reflexivity].
+  unfold esubtree. cbn [with_fr fr]. rewrite run_size.
+  apply etree_ext. cbn [with_fr fr att]. intros y Hy.
+  split; [|split; [|reflexivity]].
+  - (* kids *)
+    unfold run; cbn [fold_left]. unfold step.
+    destruct (negb (op_in_range (fr h) (detach t))); cbn [fst]; [reflexivity|].
+    unfold detach. destruct (ForestOps.set_parent_cases cfg NoFault (fr h) t ANone) as [(_ & E & _)|[(_ & E)|(_ & F & _)]];
+      [|rewrite E; reflexivity|discriminate].
+    rewrite E. cbn [ForestOps.np_of]. rewrite (ForestWF.attach_kids (fr h) t None y W). cbn. rewrite app_nil_r.
+    apply ForestWF.remove1_notin. intros Hin. apply (ForestWF.wf_link (fr h) W) in Hin.
+    (* then y = q, the parent of t; but q is not in the tree below t *)
+    assert (y = q) by congruence. subst y.
+    apply (Abs.subtree_members (fr h) t q W) in Hy. destruct Hy as [E1|E1].
+    + destruct (ForestOps.child_not_above (fr h) t q W Hq) as [N _]. congruence.
+    + apply (ForestWF.WF_not_own_ancestor (fr h) t W).
+      rewrite (ForestWF.WF_ancestors_unfold (fr h) t q W Hq). now right.
+  - (* names are never written by a structural operation *)
+    unfold run; cbn [fold_left]. unfold step.
+    destruct (negb (op_in_range (fr h) (detach t))); cbn [fst]; [reflexivity|].
+    unfold detach. destruct (ForestOps.set_parent_cases cfg NoFault (fr h) t ANone) as [(_ & E & _)|[(_ & E)|(_ & F & _)]];
+      [|rewrite E; reflexivity|discriminate].
+    rewrite E. unfold attach. cbn. rewrite Hq. reflexivity.
+Qed.
+
+(* --- levels of the heap --- *)
+Lemma level_succ s j l : level s (S (S j)) l = level s (S j) (flat_map (kids s) l).
+Proof. reflexivity. Qed.
+
+Lemma level_step s : forall j l y c, In y (level s (S j) l) -> In c (kids s y) -> In c (level s (S (S j)) l).
+Proof.
+  induction j as [|j IH]; intros l y c Hy Hc.
+  - cbn in *. apply in_flat_map. eauto.
+  - rewrite level_succ in Hy. rewrite level_succ. eapply IH; eauto.
+Qed.
+
+Lemma level_depth s : ForestWF.WF s -> forall j l y, In y (level s (S j) l) ->
+  exists x0, In x0 l /\ depth s y = depth s x0 + j.
+Proof.
+  intros W j; induction j as [|j IH]; intros l y Hy.
+  - cbn in Hy. exists y. split; [exact Hy | lia].
+  - rewrite level_succ in Hy. destruct (IH _ _ Hy) as (c & Hc & E).
+    apply in_flat_map in Hc. destruct Hc as (x0 & Hx0 & Hk). exists x0. split; [exact Hx0|].
+    apply (ForestWF.wf_link s W) in Hk. rewrite E, (Abs.depth_child s c x0 W Hk). lia.
+Qed.
+
+Lemma name_orphan s c x : name (orphan s c) x = name s x.
+Proof. unfold orphan. destruct (par s c); reflexivity. Qed.
+
+Lemma name_del_children s p x : name (del_children s p) x = name s x.
+Proof.
+  unfold del_children. generalize (kids s p) as l. intros l. revert s.
+  induction l as [|c t IH]; intros s; cbn; [reflexivity|]. rewrite IH. apply name_orphan.
+Qed.
+
+(* after `del node.children` for every node of the list: those nodes have no children, every other
+   node has the children it had; names are untouched; the state is still well-formed *)
+Lemma del_list_spec cfg : forall l s, ForestWF.WF s ->
+  let s' := run cfg s (map DelChildren l) in
+  ForestWF.WF s'
+  /\ (forall y, kids s' y = if memb y l then [] else kids s y)
+  /\ (forall y, name s' y = name s y).
+Proof.
+  induction l as [|p t IH]; intros s W; cbn zeta.
+  - split; [exact W|]. split; reflexivity.
+  - unfold run. cbn [map fold_left]. fold (run cfg (fst (step cfg s (DelChildren p))) (map DelChildren t)).
+    set (s1 := fst (step cfg s (DelChildren p))).
+    assert (H1 : ForestWF.WF s1 /\ (forall y, kids s1 y = if Nat.eqb y p then [] else kids s y)
+                 /\ (forall y, name s1 y = name s y)).
+    { subst s1. unfold step. destruct (negb (op_in_range s (DelChildren p))) eqn:R; cbn [fst].
+      - split; [exact W|]. split; [|reflexivity]. intros y. destruct (Nat.eqb_spec y p) as [->|]; [|reflexivity].
+        apply Abs.kids_nil_outside; [exact W|]. cbn in R. unfold in_range in R.
+        apply Bool.negb_true_iff, Nat.ltb_ge in R. exact R.
+      - destruct (ForestOps.del_children_spec s p W) as (W1 & _ & _ & K1 & K2). split; [exact W1|]. split.
+        + intros y. destruct (Nat.eqb_spec y p) as [->|N]; [exact K1 | now apply K2].
+        + intros y. apply name_del_children. }
+    destruct H1 as (W1 & K1 & N1). destruct (IH s1 W1) as (W2 & K2 & N2). split; [exact W2|]. split.
+    + intros y. rewrite K2, K1. cbn [memb existsb].
+      destruct (Nat.eqb y p); cbn; [now destruct (memb y t) | reflexivity].
+    + intros y. now rewrite N2, N1.
+Qed.
+
+Lemma In_memb x l : In x l -> memb x l = true.
+Proof. intros H. unfold memb. apply existsb_exists. exists x. split; [exact H | apply Nat.eqb_refl]. Qed.
+
+(* (the depth cut) deleting the children of the nodes of level k+1 below x leaves, below x, the tree cut
+   after k levels - HelperProofs.cut, which is what Helper.depth_cut computes (del_level_cut) *)
+Theorem cut_refines dec cfg h x k :
+  ForestWF.WF (fr h) ->
+  let s' := run cfg (fr h) (cut_ops (fr h) x (S k)) in
+  ForestWF.WF s' /\ size s' = size (fr h)
+  /\ esubtree dec (with_fr h s') x = HelperProofs.cut k (esubtree dec h x).
+Proof.
+  intros W. cbn zeta. unfold cut_ops. set (L := level (fr h) (S k) [x]).
+  destruct (del_list_spec cfg L (fr h) W) as (W' & K' & N').
+  set (s' := run cfg (fr h) (map DelChildren L)) in *.
+  assert (Sz : size s' = size (fr h)) by (apply run_size).
+  split; [exact W'|]. split; [exact Sz|].
+  unfold esubtree. cbn [with_fr fr]. rewrite Sz.
+  generalize (S (size (fr h))) as f.
+  (* nodes m levels above the cut level *)
+  assert (Q : forall m, m <= k -> forall y, In y (level (fr h) (S (k - m)) [x]) ->
+              forall f, etree_of dec (with_fr h s') f y = HelperProofs.cut m (etree_of dec h f y)).
+  { induction m as [|m IH]; intros Lm y Hy f.
+    - replace (k - 0) with k in Hy by lia.
+      assert (Ky : kids s' y = []) by (rewrite K', (In_memb y L Hy); reflexivity).
+      destruct f; cbn [etree_of with_fr fr att HelperProofs.cut]; rewrite ?Ky, N'; reflexivity.
+    - assert (Ky : kids s' y = kids (fr h) y).
+      { rewrite K'. destruct (memb y L) eqn:M; [|reflexivity]. exfalso.
+        apply memb_In in M. destruct (level_depth (fr h) W _ _ _ M) as (x1 & [<-|[]] & E1).
+        destruct (level_depth (fr h) W _ _ _ Hy) as (x2 & [<-|[]] & E2). lia. }
+      destruct f; cbn [etree_of with_fr fr att HelperProofs.cut]; rewrite ?Ky, N'; [reflexivity|].
+      f_equal. rewrite map_map. apply map_ext_in. intros c Hc. apply IH; [lia|].
+      replace (S (k - m)) with (S (S (k - S m))) by lia. eapply level_step; eauto. }
+  intros f. apply (Q k (le_n k) x). replace (k - k) with 0 by lia. cbn. now left.
+Qed.
+
+Lemma copy_tree_cut : forall t k, Helper.copy_tree (HelperProofs.cut k t) = HelperProofs.cut k (Helper.copy_tree t).
+Proof.
+  induction t as [tg n a ks IH] using Rose.tree_ind'. intros k. destruct k as [|k]; cbn; [reflexivity|].
+  f_equal. rewrite !map_map. apply map_ext_in. intros c Hc. rewrite Forall_forall in IH. now apply IH.
+Qed.
+
+Lemma depth_cut_cut k t : Helper.depth_cut (S k) t = HelperProofs.cut k t.
+Proof. exact (HelperProofs.del_level_cut k t). Qed.
+
+Lemma phi_in_range s r x : In x (comp s r) -> phi s r x < size (deep_copy_f s r).
+Proof. apply phi_lt. Qed.
+
+(* (2a) get_subtree: the returned node abstracts to Helper's result for the located subtree *)
+Theorem get_subtree_refines dec cfg h start found md :
+  ForestWF.WF (fr h) -> In found (comp (fr h) start) ->
+  let '(h', r') := sk_get_subtree cfg h start found md in
+  Helper.copy_tree (esubtree dec h' r')
+  = Helper.depth_cut md (Helper.copy_tree (esubtree dec h found)).
+Proof.
+  intros W Hf. unfold sk_get_subtree.
+  set (h1 := deep_copy h start). set (t := phi (fr h) start found).
+  assert (W1 : ForestWF.WF (fr h1)) by (apply copy_WF; exact W).
+  assert (E1 : esubtree dec h1 t = relabel (phi (fr h) start) (esubtree dec h found)) by (now apply copy_refines).
+  pose proof (detach_subtree dec cfg h1 t W1) as D.
+  set (ops := match par (fr h1) t with None => [] | Some _ => [detach t] end) in *.
+  destruct md as [|k].
+  - cbn [Helper.depth_cut]. rewrite D, E1. apply copy_tree_relabel.
+  - set (s2 := run cfg (fr h1) ops) in *. set (h2 := with_fr h1 s2) in *.
+    assert (W2 : ForestWF.WF (fr h2)) by (cbn; apply ForestStep.run_WF; exact W1).
+    assert (Ht : In t (comp (fr h2) t)).
+    { apply comp_self. cbn. unfold s2. rewrite run_size. now apply phi_lt. }
+    pose proof (copy_refines dec h2 t t W2 Ht) as E3.
+    set (h3 := deep_copy h2 t) in *. cbn [with_fr fr] in E3 |- *.
+    assert (W3 : ForestWF.WF (fr h3)) by (apply copy_WF; exact W2).
+    destruct (cut_refines dec cfg h3 (phi s2 t t) k W3) as (_ & _ & C).
+    cbn zeta in C. change (fr h2) with s2 in E3. rewrite C, E3, D, E1.
+    rewrite copy_tree_cut, !copy_tree_relabel. symmetry. apply depth_cut_cut.
+Qed.
+
+(* (2b) prune_tree(max_depth = k+1) without paths *)
+Theorem prune_depth_refines dec cfg h start exact k :
+  ForestWF.WF (fr h) -> start < size (fr h) ->
+  let '(h', r') := sk_prune cfg h start [] exact (S k) in
+  Helper.copy_tree (esubtree dec h' r')
+  = Helper.depth_cut (S k) (Helper.copy_tree (esubtree dec h start)).
+Proof.
+  intros W L. unfold sk_prune.
+  set (h1 := deep_copy h start). set (tc := phi (fr h) start start).
+  assert (W1 : ForestWF.WF (fr h1)) by (apply copy_WF; exact W).
+  assert (E1 : esubtree dec h1 tc = relabel (phi (fr h) start) (esubtree dec h start))
+    by (apply copy_refines; [exact W | now apply comp_self]).
+  assert (P0 : prune_ops (fr h1) (map (phi (fr h) start) []) exact = []) by (unfold prune_ops; destruct exact; reflexivity).
+  rewrite P0. change (run cfg (fr h1) []) with (fr h1).
+  destruct (cut_refines dec cfg h1 tc k W1) as (_ & _ & C). cbn zeta in C. rewrite C, E1.
+  rewrite copy_tree_cut, copy_tree_relabel. symmetry. apply depth_cut_cut.
+Qed.
+
+(* what Helper.get_subtree_at returns, in terms of the position it locates *)
+Definition helper_located (tsep : str) (T : Rose.tree) (st : Rose.pos) (path : str) : res Rose.pos :=
+  if Helper.is_nil path then Ret st else
+  match Helper.find_path_at false tsep (Helper.copy_tree T) st path with
+  | Raise e => Raise e
+  | Ret None => Raise ValueError
+  | Ret (Some p) => Ret p
+  end.
+
+Lemma subtree_at_copy : forall q t,
+  Rose.subtree_at (Helper.copy_tree t) q = option_map Helper.copy_tree (Rose.subtree_at t q).
+Proof.
+  induction q as [|i q IH]; intros [tg n a ks]; [reflexivity|].
+  cbn [Helper.copy_tree Rose.subtree_at Rose.tkids]. rewrite nth_error_map.
+  destruct (nth_error ks i) as [c|]; cbn; [apply IH | reflexivity].
+Qed.
+
+Lemma copy_tree_idem t : Helper.copy_tree (Helper.copy_tree t) = Helper.copy_tree t.
+Proof.
+  induction t as [tg n a ks IH] using Rose.tree_ind'. cbn. f_equal. rewrite map_map.
+  apply map_ext_in. intros c Hc. rewrite Forall_forall in IH. now apply IH.
+Qed.
+
+(* the two models side by side: when `found` is the node at the position the algorithm locates, the
+   heap skeleton returns (modulo object identities) exactly the tree Algo/Helper.v computes *)
+Theorem get_subtree_agrees dec cfg h start found md tsep T st path q res :
+  ForestWF.WF (fr h) -> In found (comp (fr h) start) ->
+  helper_located tsep T st path = Ret q ->
+  Rose.subtree_at T q = Some (esubtree dec h found) ->
+  Helper.get_subtree_at false tsep T st path md = Ret res ->
+  Helper.copy_tree (esubtree dec (fst (sk_get_subtree cfg h start found md))
+                             (snd (sk_get_subtree cfg h start found md))) = res.
+Proof.
+  intros W Hf Hq Hs Hr.
+  pose proof (get_subtree_refines dec cfg h start found md W Hf) as R.
+  destruct (sk_get_subtree cfg h start found md) as [h' r']. cbn [fst snd]. rewrite R.
+  unfold Helper.get_subtree_at in Hr. destruct (Helper.is_nil tsep); [discriminate|].
+  unfold helper_located in Hq.
+  assert (Hloc : (if Helper.is_nil path then Ret st else
+                  match Helper.find_path_at false tsep (Helper.copy_tree T) st path with
+                  | Raise e => Raise e | Ret None => Raise ValueError | Ret (Some p) => Ret p end) = Ret q)
+    by exact Hq.
+  rewrite Hloc in Hr. rewrite subtree_at_copy, Hs in Hr. cbn [option_map] in Hr.
+  destruct md as [|k]; cbn [Nat.eqb] in Hr; [injection Hr as <-; reflexivity|].
+  rewrite copy_tree_idem in Hr. injection Hr as <-. reflexivity.
+Qed.
+
+(* (3) tree_to_dict: the exporter reads a copy; what it computes is a function of the abstraction
+   alone, and it is the same on the copy as on the original *)
+Lemma tname_relabel g t : Rose.tname (relabel g t) = Rose.tname t.
+Proof. destruct t; reflexivity. Qed.
+Lemma tattrs_relabel g t : Rose.tattrs (relabel g t) = Rose.tattrs t.
+Proof. destruct t; reflexivity. Qed.
+Lemma is_leaf_relabel g t : Rose.is_leaf (relabel g t) = Rose.is_leaf t.
+Proof. destruct t as [tg n a [|k ks]]; reflexivity. Qed.
+
+Lemma dict_child_relabel o a g t : Export.dict_child o a (relabel g t) = Export.dict_child o a t.
+Proof.
+  unfold Export.dict_child, Export.attr_items, Export.describe, Export.get_attr.
+  now rewrite tname_relabel, tattrs_relabel.
+Qed.
+
+Lemma walk_relabel {X} (emit : list str -> Rose.tree -> X) o g :
+  (forall a t, emit a (relabel g t) = emit a t) ->
+  forall t anc, Export.walk emit o anc (relabel g t) = Export.walk emit o anc t.
+Proof.
+  intros He. induction t as [tg n a ks IH] using Rose.tree_ind'. intros anc.
+  change (relabel g (Rose.T tg n a ks)) with (Rose.T (option_map g tg) n a (map (relabel g) ks)).
+  cbn [Export.walk]. f_equal.
+  - change (Rose.T (option_map g tg) n a (map (relabel g) ks)) with (relabel g (Rose.T tg n a ks)).
+    unfold Export.gates. rewrite is_leaf_relabel, He. reflexivity.
+  - rewrite flat_map_concat_map, map_map, <- flat_map_concat_map.
+    apply flat_map_ext_in. intros c Hc. rewrite Forall_forall in IH. now apply IH.
+Qed.
+
+Lemma locate_relabel g : forall p t anc,
+  Export.locate anc (relabel g t) p
+  = option_map (fun at_ : list str * Rose.tree => (fst at_, relabel g (snd at_))) (Export.locate anc t p).
+Proof.
+  induction p as [|i p IH]; intros [tg n a ks] anc; [reflexivity|].
+  cbn [relabel Export.locate Rose.tkids Rose.tname]. rewrite nth_error_map.
+  destruct (nth_error ks i) as [c|]; cbn [option_map]; [apply IH | reflexivity].
+Qed.
+
+Lemma tree_to_dict_relabel g t sep p o :
+  Export.tree_to_dict (relabel g t) sep p o = Export.tree_to_dict t sep p o.
+Proof.
+  unfold Export.tree_to_dict. rewrite locate_relabel.
+  destruct (Export.locate [] t p) as [[anc t']|]; cbn [option_map fst snd]; [|reflexivity].
+  f_equal. f_equal. apply walk_relabel. intros a u. now rewrite tname_relabel, dict_child_relabel.
+Qed.
+
+Theorem export_refines dec h start x :
+  ForestWF.WF (fr h) -> In x (comp (fr h) start) ->
+  let h' := sk_export h start in
+  unchanged_below (size (fr h)) h h'
+  /\ forall sep p o,
+       Export.tree_to_dict (esubtree dec h' (phi (fr h) start x)) sep p o
+       = Export.tree_to_dict (esubtree dec h x) sep p o.
+Proof.
+  intros W Hx. cbn zeta. split; [apply sk_export_spec|]. intros sep p o.
+  unfold sk_export. rewrite (copy_refines dec h start x W Hx). apply tree_to_dict_relabel.
+Qed.
+
+(* (4) the mutating counterpart, shift_nodes for one pair (`from_node.parent = to_node` without the
+   copy): here the input IS changed, and exactly in these entries: the parent field of the moved node,
+   the children list of its old parent and the children list of the new parent *)
+Theorem shift_writes cfg h from_ to_ :
+  ForestWF.WF (fr h) ->
+  let s := fr h in
+  let s' := fr (sk_move cfg h from_ to_) in
+  (forall x, x <> from_ -> par s' x = par s x)
+  /\ (forall q, par s from_ <> Some q -> q <> to_ -> kids s' q = kids s q)
+  /\ (forall x, name s' x = name s x)
+  /\ (s' = s
+      \/ (par s' from_ = Some to_
+          /\ (forall q, kids s' q = remove1 from_ (kids s q) ++ (if Nat.eqb q to_ then [from_] else [])))).
+Proof.
+  intros W. cbn zeta. unfold sk_move; cbn [with_fr fr]. unfold run; cbn [fold_left]. unfold step.
+  destruct (negb (op_in_range (fr h) (SetParent from_ (ANode to_) NoFault))); cbn [fst].
+  { repeat split; auto. }
+  destruct (ForestOps.set_parent_cases cfg NoFault (fr h) from_ (ANode to_)) as [(_ & E & _)|[(_ & E)|(_ & F & _)]];
+    [|rewrite E; repeat split; auto|discriminate].
+  rewrite E. cbn [ForestOps.np_of].
+  assert (K : forall q, kids (attach (fr h) from_ (Some to_)) q
+                        = remove1 from_ (kids (fr h) q) ++ (if Nat.eqb q to_ then [from_] else [])).
+  { intros q. rewrite (ForestWF.attach_kids (fr h) from_ (Some to_) q W). f_equal.
+    unfold ForestWF.is_parent. rewrite Nat.eqb_sym. reflexivity. }
+  split; [|split; [|split]].
+  - intros x N. rewrite ForestWF.attach_par. destruct (Nat.eqb_spec x from_); [contradiction|reflexivity].
+  - intros q N1 N2. rewrite K. destruct (Nat.eqb_spec q to_); [contradiction|]. rewrite app_nil_r.
+    apply ForestWF.remove1_notin. intros Hin. apply (ForestWF.wf_link (fr h) W) in Hin. contradiction.
+  - intros x. unfold attach. destruct (par (fr h) from_); reflexivity.
+  - right. split; [|exact K]. rewrite ForestWF.attach_par, Nat.eqb_refl. reflexivity.
+Qed.
+
